@@ -520,6 +520,10 @@ func (s *Scanner) scanDocument() (token.Token, error) {
 				}
 				return tok, nil
 			}
+		default:
+			if documentMode == documentHalfClose {
+				documentMode = documentOpen // the '*' was not followed by '/'
+			}
 		}
 		s.readRune()
 	}
